@@ -49,6 +49,7 @@ def run(ctx: Ctx, rep: Report) -> None:
     rep.rule("C01-R7", "endOfMibView markers are never delivered as instances", floor=2)
     rep.rule("C01-R8", "order within a root is preserved between fetch and yield", floor=2)
     rep.rule("C01-R9", "an exception a fetcher raises itself ends the walk the same way at every fetch site (first request and continuation requests)", floor=3)
+    rep.rule("C01-R11", "the fetchers' progress guard refuses only non-advancing OIDs: it pairs requested[i] with retrieved[i] and passes requested < retrieved (a conformant agent is never refused; shared with C03-R2/R3)", floor=8)
     rep.rule("C01-R10", "the GETBULK-based walk is the same loop: delegation, faithful fetcher results, suffix cut at the marker (shared with C02-R0/R1/R4)", floor=5)
     rep.assumptions += [
         "the agent is standards conformant (GETNEXT/GETBULK return lexicographic successors; endOfMibView at the end of the view)",
@@ -70,6 +71,7 @@ def run(ctx: Ctx, rep: Report) -> None:
     sub = Report(rep.prop, rep.tier)
     c02.check_bulk_fetch(ctx, sub, wm)
     rep.adopt(sub, "C01-R10")
+    rep.adopt_rules(ctx.sub_run("c03", rep), "C01-R11", ["C03-R2", "C03-R3"])
 
 
 def fetcher_raises(ctx: Ctx, fn: FuncInfo, seam: Optional[FuncInfo], depth: int = 0, seen=None) -> List[Tuple[FuncInfo, ast.Raise, ClassInfo]]:
